@@ -201,7 +201,7 @@ var loopTable = map[string]internalPanic{
 	"(*runtime.mixedTable).len":                          {1, "border search: one hash lookup per consecutive integer key present in the hash part (held memory)"},
 	"(lib/iolib.linebufWriter).Write":                    {1, "each iteration writes a non-empty prefix of p (i >= 1): bounded by len(p)"},
 	"(runtime.ComplianceFlags).Names":                    {1, "i doubles each iteration up to the constant complyflagsLimit: at most 16 iterations"},
-	"lib/mathlib.random":                                 {1, "rejection sampling with >= 50% acceptance per turn (the range covers more than half of int64)"},
+	"(*lib/mathlib.randomGenerator).random":              {1, "rejection sampling with >= 50% acceptance per turn (the range covers more than half of int64)"},
 	"lib/stringlib.Format":                               {1, "pre-charged: RequireCPU(len(format)) precedes the loop and i only moves forward over format"},
 	"lib/stringlib.PackSize":                             {1, "one option per iteration of the format reader (hasNext/nextOption advance p.i): bounded by len(format)"},
 	"lib/stringlib.PackValues":                           {1, "one option per iteration of the format reader: bounded by len(format); each value written consumes budget"},
